@@ -45,6 +45,24 @@ def encode_cmd_and_payload(
     return data
 
 
+def validate_group_value(value: DPTBinary | DPTArray) -> None:
+    """Raise ConversionError if a group value can not be serialized."""
+    if not isinstance(value, DPTArray):
+        return
+    # APCI and payload share the APDU of a frame: 254 octets maximum
+    if len(value.value) > 253:
+        raise ConversionError(
+            f"APDU too long for a single frame: {1 + len(value.value)} octets; maximum is 254"
+        )
+    try:
+        if not bytes(value.value):
+            raise ValueError("DPTArray is empty")
+    except (TypeError, ValueError) as err:
+        raise ConversionError(
+            "Could not serialize DPTArray", value=value.value
+        ) from err
+
+
 class APCIService(Enum):
     """Enum class for APCI services."""
 
@@ -534,6 +552,10 @@ class GroupValueWrite(APCI):
 
     value: DPTBinary | DPTArray
 
+    def __post_init__(self) -> None:
+        """Reject values that can not be sent before the telegram is queued."""
+        validate_group_value(self.value)
+
     def calculated_length(self) -> int:
         """Get length of APCI payload."""
         if isinstance(self.value, DPTBinary):
@@ -575,6 +597,10 @@ class GroupValueResponse(APCI):
     CODE: ClassVar = APCIService.GROUP_RESPONSE
 
     value: DPTBinary | DPTArray
+
+    def __post_init__(self) -> None:
+        """Reject values that can not be sent before the telegram is queued."""
+        validate_group_value(self.value)
 
     def calculated_length(self) -> int:
         """Get length of APCI payload."""
